@@ -4,6 +4,7 @@
    Model/Digest.v (digest.go + an independent transcription of RFC 7616 section 3.4).
    The hash function is a universally quantified variable H everywhere. *)
 From Coq Require Import Permutation.
+From ReqV Require Import Model.ProxyAuth Proofs.ProxyAuthProofs.
 From ReqV Require Import Lib.Bytes Model.Base64 Model.AuthParam Model.Digest
      Proofs.Base64Proofs Proofs.AuthParamProofs Proofs.DigestProofs Proofs.ChallengeTextProofs
      Proofs.DigestVerifyProofs.
@@ -41,6 +42,69 @@ Print Assumptions C20_basic_recovers_split.
 Theorem C20_bearer_exact : forall token, parse_bearer (bearer_header token) = Some token.
 Proof. exact bearer_exact. Qed.
 Print Assumptions C20_bearer_exact.
+
+(* ----- Basic credentials for a proxy (Proxy-Authorization from the proxy URL's userinfo) ----- *)
+
+(* the credentials survive the URL: url.UserPassword(u, p).String() (or url.User(u)) parsed
+   again by net/url gives back u and p - for ALL byte strings *)
+Theorem C20_proxy_userinfo_roundtrip : forall u : userinfo, ui_parse (ui_string u) = Some u.
+Proof. exact ui_parse_string. Qed.
+Print Assumptions C20_proxy_userinfo_roundtrip.
+
+(* what is sent decodes to user ":" password (empty password when none is set); the proxy's
+   Basic parser recovers (user, password) when the user has no colon *)
+Theorem C20_proxy_auth_decodes : forall u pw host,
+  exists h, proxy_auth (mkPU (Some (u, pw)) host) = Some h /\
+            b64_decode (skipn 6 h) = Some (u ++ colon_b :: match pw with Some p => p | None => [] end).
+Proof. exact proxy_auth_decodes. Qed.
+Print Assumptions C20_proxy_auth_decodes.
+
+Theorem C20_proxy_auth_recovers : forall u pw host,
+  mem_byte colon_b u = false ->
+  exists h, proxy_auth (mkPU (Some (u, Some pw)) host) = Some h /\ parse_basic h = Some (u, pw).
+Proof. exact proxy_auth_recovers. Qed.
+Print Assumptions C20_proxy_auth_recovers.
+
+(* the connection-pool key (the proxy URL text, URL.String) determines the proxy URL and with it
+   the credentials: two connect methods with one key send the same Proxy-Authorization *)
+Theorem C20_pool_key_determines_credentials : forall p q hs ht t t',
+  host_ok p -> host_ok q ->
+  conn_key_of p hs t = conn_key_of q ht t' -> p = q /\ proxy_auth p = proxy_auth q.
+Proof. exact key_determines_auth. Qed.
+Print Assumptions C20_pool_key_determines_credentials.
+
+(* carried state: idle proxy connections remember the header they were dialled with.  On one
+   client, over any sequence of proxy URLs (password rotations included) and http / https
+   targets, everything the proxy receives for request i is the credential of request i's proxy
+   URL, and a plain-http request carries exactly that one value *)
+Theorem C20_proxy_sequence_sends_current : forall rs,
+  Forall (fun r : proxy_req => host_ok (fst (fst r))) rs ->
+  Forall2 (fun (r : proxy_req) seen =>
+             (forall h, In h seen -> h = proxy_auth (fst (fst r))) /\
+             (snd (fst r) = false -> seen = [proxy_auth (fst (fst r))]))
+          rs (proxy_run [] rs).
+Proof. intros rs H. exact (proxy_run_current rs [] pool_ok_nil H). Qed.
+Print Assumptions C20_proxy_sequence_sends_current.
+
+(* a key built from URL.Redacted() (password masked) breaks exactly this: the rotated password
+   is not transmitted *)
+Theorem C20_redacted_key_refuted :
+  let a := mkPU (Some (bs "alice", Some (bs "first-secret"))) (bs "127.0.0.1:3128") in
+  let b := mkPU (Some (bs "alice", Some (bs "second-secret"))) (bs "127.0.0.1:3128") in
+  proxy_run_with pu_redacted [] [(a, false, []); (b, false, [])] = [[proxy_auth a]; [proxy_auth a]] /\
+  proxy_auth a <> proxy_auth b /\
+  proxy_run [] [(a, false, []); (b, false, [])] = [[proxy_auth a]; [proxy_auth b]].
+Proof. exact redacted_key_refuted. Qed.
+Print Assumptions C20_redacted_key_refuted.
+
+(* connectMethod.key, proxyAuth and basicAuth as regenerated from the source are the ones modelled *)
+Theorem C20_proxy_source_as_modelled :
+  proxy_key_source = [bs "cm.proxyURL.String()"] /\
+  proxy_key_fields = [bs "proxy: proxyStr"; bs "scheme: cm.targetScheme"; bs "addr: targetAddr"; bs "onlyH1: cm.onlyH1"] /\
+  proxy_auth_returns = [bs """"""; bs """Basic "" + basicAuth(username, password)"; bs """"""] /\
+  basic_auth_source = [bs "auth := username + "":"" + password"; bs "return base64.StdEncoding.EncodeToString([]byte(auth))"].
+Proof. exact proxy_source_as_modelled. Qed.
+Print Assumptions C20_proxy_source_as_modelled.
 
 (* ----- Digest ----- *)
 
